@@ -2,6 +2,7 @@ import InovesaModel.Model.Scalar
 import InovesaModel.Model.KickMap
 import InovesaModel.Model.Ruler
 import InovesaModel.Model.FokkerPlanck
+import InovesaModel.Model.RFDrift
 open Inovesa
 namespace Driver
 
@@ -13,6 +14,8 @@ structure Case where
   data : Array Float32 := #[]
   extra : Array Float32 := #[]
   parts : Array Float32 := #[]
+  aux : Array Float32 := #[]
+  aux2 : Array Float32 := #[]
 
 def floats (ts : List String) : Array Float32 :=
   (ts.map fun s => (f32ofHex? s).getD (Float32.ofBits 0x7fc00000)).toArray
@@ -99,11 +102,80 @@ def runFP (c : Case) : List String :=
   let out := fpApply n nb rowAt data
   ["case " ++ c.id, rulerLine, tabLine, hexLine "out" out]
 
+/-- ident <id> <n> <nb> : `Identity::apply` copies `nb*n*n` cells -/
+def runIdent (c : Case) : List String :=
+  let n := natArg c 2
+  let nb := natArg c 3
+  ["case " ++ c.id, hexLine "out" ((List.range (nb * n * n)).map fun i => c.data.getD i f32zero)]
+
+/-- tables + apply for a y-kick whose offsets are `off` (n*nb entries) -/
+def kickOutputs (axis : String) (n it nb lb : Nat) (off : Array Float32) (data : Array Float32) :
+    List String :=
+  let rowsOpt : Option (Array (List (Hi Float32))) :=
+    (List.range (n * nb)).foldl (fun acc r =>
+      match acc, smRow n it (off.getD r f32zero) with
+      | some a, some row => some (a.push row)
+      | _, _ => none) (some #[])
+  match rowsOpt with
+  | none => ["undefined float-to-uint32"]
+  | some rows =>
+    let tabs : Nat → List (Hi Float32) := fun r => rows.getD r []
+    let tabLine := rows.foldl (fun s row =>
+      row.foldl (fun s h => s ++ " " ++ toString h.1 ++ " " ++ f32hex h.2) s) "tab"
+    let d : Nat → Float32 := fun i => data.getD i f32zero
+    let out := if axis == "x" then applyX n nb tabs d else applyY n nb lb tabs d
+    [tabLine, hexLine "out" out]
+
+/-- rf <id> <n> <it> <nb> <lin|sin> ; extra = qmin qmax pmin pmax qscale pscale angle f_RF
+    [revpart V_RF V0] ; aux = tan(angle) bl2phase syncphase ; aux2 = (arg, sin arg) per cell -/
+def runRF (c : Case) : List String :=
+  let n := natArg c 2
+  let it := natArg c 3
+  let nb := natArg c 4
+  let lin := c.head.getD 5 "lin" == "lin"
+  let e := fun i => c.extra.getD i f32zero
+  let ax0 : Ruler Float32 := { steps := n, min := e 0, max := e 1 }
+  let ax1 : Ruler Float32 := { steps := n, min := e 2, max := e 3 }
+  let tanv := c.aux.getD 0 f32zero
+  let bl2 := c.aux.getD 1 f32zero
+  let sync := c.aux.getD 2 f32zero
+  -- RFKickMap shares the map of bunch 0 (`_lastbunch = 0`); only `_offset[0..n)` is filled
+  let one : Float32 := Float32.ofBits 0x3f800000
+  let argsOk := lin || (List.range n).all fun x =>
+      (rfSinArg ax0 bl2 sync x).toBits == (c.aux2.getD (2 * x) f32zero).toBits
+  if !argsOk then ["case " ++ c.id, "error sine-argument-mismatch"] else
+  let offRow : Nat → Float32 := fun x =>
+    if lin then rfOffsetLinear tanv ax0.zerobin bl2 ax0.delta sync sync one x
+    else rfOffsetSin (e 8) (e 9) (e 10) ax1.delta (Float.toFloat32 (e 5).toFloat) one
+           (fun x => c.aux2.getD (2 * x + 1) f32zero) x
+  let off : Array Float32 := ((List.range (n * nb)).map fun r => if r < n then offRow r else f32zero).toArray
+  ["case " ++ c.id, s!"ints 0 {n * nb}", hexLine "off" off.toList] ++ kickOutputs "y" n it nb 0 off c.data
+
+/-- drift <id> <n> <it> <nb> ; extra = qmin qmax pmin pmax qscale pscale slip0 slip1 slip2 E0 ;
+    aux2 = (base, base^0, base^1, base^2) per row -/
+def runDrift (c : Case) : List String :=
+  let n := natArg c 2
+  let it := natArg c 3
+  let nb := natArg c 4
+  let e := fun i => c.extra.getD i f32zero
+  let ax0 : Ruler Float32 := { steps := n, min := e 0, max := e 1 }
+  let ax1 : Ruler Float32 := { steps := n, min := e 2, max := e 3 }
+  let baseOk := (List.range n).all fun y =>
+      (driftPowBase ax1 (e 5) (e 9) y).toBits == (c.aux2.getD (4 * y) f32zero).toBits
+  if !baseOk then ["case " ++ c.id, "error pow-base-mismatch"] else
+  let pw : Nat → Nat → Float32 := fun y i => c.aux2.getD (4 * y + 1 + i) f32zero
+  let offRow : Nat → Float32 := fun y => driftOffset [e 6, e 7, e 8] ax1 ax0.delta pw y
+  let off : Array Float32 := ((List.range (n * nb)).map fun r => if r < n then offRow r else f32zero).toArray
+  ["case " ++ c.id, hexLine "off" off.toList] ++ kickOutputs "x" n it nb 0 off c.data
+
 def dispatch (c : Case) : List String :=
   match c.kind with
   | "kick" => runKick c
   | "coeff" => runCoeff c
   | "fp" => runFP c
+  | "ident" => runIdent c
+  | "rf" => runRF c
+  | "drift" => runDrift c
   | k => ["case " ++ c.id, "error unknown-kind " ++ k]
 
 end Driver
